@@ -282,6 +282,7 @@ struct BuildCtx {
   // is a prefix of an earlier, longer one starts at the same address)
   std::vector<std::pair<char*, std::string>>* shared = nullptr;
   const char* konst(const std::string& s) {
+    if (s.empty() && (mix64(seed ^ (0x7171ULL + ord)) & 3) == 0) return nullptr;   // the empty string as a view without an address: {nullptr, 0}
     if (shared && !s.empty()) {
       uint64_t h = mix64(seed ^ (0x9191ULL + ord));
       if (h & 1) for (auto& e : *shared) if (e.second.size() >= s.size() && e.second.compare(0, s.size(), s) == 0) return e.first;
